@@ -16,7 +16,6 @@ from xdsl.pattern_rewriter import (
     PatternRewriteWalker,
     RewritePattern,
 )
-from xdsl.traits import ConstantLike
 
 
 @dataclass
@@ -28,15 +27,22 @@ class TestConstantFoldingIntegerAdditionPattern(RewritePattern):
         if not isinstance(op, AddiOp):
             return
 
-        # Ensure both operands are constants
-        lhs_op: ConstantOp = op.operands[0].op  # pyright: ignore
-        rhs_op: ConstantOp = op.operands[1].op  # pyright: ignore
-        assert lhs_op.has_trait(ConstantLike)  # pyright: ignore
-        assert rhs_op.has_trait(ConstantLike)  # pyright: ignore
+        # Only fold when both operands are integer constants, otherwise the operation
+        # is left in place
+        lhs_op = op.operands[0].owner
+        rhs_op = op.operands[1].owner
+        if not isinstance(lhs_op, ConstantOp) or not isinstance(rhs_op, ConstantOp):
+            return
+        lhs_attr = lhs_op.value
+        rhs_attr = rhs_op.value
+        if not isinstance(lhs_attr, IntegerAttr) or not isinstance(
+            rhs_attr, IntegerAttr
+        ):
+            return
 
         # Calculate the result of the addition
-        lhs: int = lhs_op.value.value.data  # pyright: ignore
-        rhs: int = rhs_op.value.value.data  # pyright: ignore
+        lhs: int = lhs_attr.value.data
+        rhs: int = rhs_attr.value.data
         folded_op = ConstantOp(
             IntegerAttr(lhs + rhs, op.result.type)  # pyright: ignore[reportCallIssue, reportArgumentType]
         )
@@ -101,26 +107,21 @@ class TestSpecialisedConstantFoldingPass(ModulePass):
             while True:
                 # Elide exception handling
                 rewriter_has_done_action = False
+                lhs_op = rhs_op = None
                 if isinstance(rewrite_op, AddiOp):
-                    lhs_op: OpResult = rewrite_op.operands[0].op  # pyright: ignore
-                    rhs_op: OpResult = rewrite_op.operands[1].op  # pyright: ignore
-
-                    constant_like = ConstantLike
-                    has_trait = False
-                    for t in lhs_op.traits._traits:  # pyright: ignore
-                        if isinstance(t, constant_like):
-                            has_trait = True
-                            break
-                    assert has_trait
-                    has_trait = False
-                    for t in rhs_op.traits._traits:  # pyright: ignore
-                        if isinstance(t, constant_like):
-                            has_trait = True
-                            break
-                    assert has_trait
-
-                    lhs: int = lhs_op.value.value.data  # pyright: ignore
-                    rhs: int = rhs_op.value.value.data  # pyright: ignore
+                    lhs_op = rewrite_op.operands[0].owner
+                    rhs_op = rewrite_op.operands[1].owner
+                # Only fold when both operands are integer constants, otherwise the
+                # operation is left in place
+                if (
+                    isinstance(rewrite_op, AddiOp)
+                    and isinstance(lhs_op, ConstantOp)
+                    and isinstance(rhs_op, ConstantOp)
+                    and isinstance(lhs_op.value, IntegerAttr)
+                    and isinstance(rhs_op.value, IntegerAttr)
+                ):
+                    lhs: int = lhs_op.value.value.data
+                    rhs: int = rhs_op.value.value.data
 
                     result_type = rewrite_op.results[0].type
                     ## Inline `IntegerAttr(lhs + rhs, result_type)`
